@@ -8,6 +8,7 @@ import (
 	"strings"
 
 	"github.com/robfig/soy/ast"
+	"github.com/robfig/soy/soyjs"
 	"github.com/robfig/soy/soymsg"
 	"verif/harness/internal/faults"
 	"verif/harness/internal/gen"
@@ -106,6 +107,13 @@ func observeCase(c *gen.Case, o obsOpts) vector {
 	} else if err == nil && len(cc2.Templates) != len(cc.Reg.Templates) {
 		v.Again = fmt.Sprintf("first Compile: %d templates; second Compile of the same Bundle: %d", len(cc.Reg.Templates), len(cc2.Templates))
 	}
+	if v.Again == "" && c.GlobalsSplit {
+		// the application builds a second Bundle from the same sources and the same globals maps
+		_, _, err3 := sut.CompileBundle(c, o.order)
+		if (err == nil) != (err3 == nil) || (err != nil && err.Error() != err3.Error()) {
+			v.Again = fmt.Sprintf("first Bundle: %v; a second Bundle built from the same files and the same globals maps: %v", err, err3)
+		}
+	}
 	sut.Cleanup()
 	if err != nil {
 		v.Err = err.Error()
@@ -133,6 +141,33 @@ func observeCase(c *gen.Case, o obsOpts) vector {
 		}
 	}
 	if o.js {
+		// one Generator asked for every file, and then for every file again: same bytes both times
+		g := soyjs.NewGenerator(cc.Reg)
+		first := map[string]string{}
+		for round := 0; round < 2 && v.Again == ""; round++ {
+			for _, f := range cc.Reg.SoyFiles {
+				var buf bytes.Buffer
+				var werr error
+				func() {
+					defer func() {
+						if r := recover(); r != nil {
+							werr = fmt.Errorf("panic: %v", r)
+						}
+					}()
+					werr = g.WriteFile(&buf, f.Name)
+				}()
+				k := f.Name + "#" + firstTemplate(f)
+				out := buf.String()
+				if werr != nil {
+					out = "E:" + werr.Error()
+				}
+				if round == 0 {
+					first[k] = out
+				} else if first[k] != out {
+					v.Again = "Generator.WriteFile of " + k + " gives other bytes the second time: " + firstDiff(first[k], out)
+				}
+			}
+		}
 		v.JS = map[string]string{}
 		cat := faults.NewBundle(faults.BundleKind(o.catKind%3), cc.Msgs)
 		for i, f := range cc.Reg.SoyFiles {
@@ -711,6 +746,8 @@ func c13Gen(c *wk.Ctx, run, ci int) (*gen.Case, int) {
 	}
 	if ci%2 == 0 {
 		gc.GlobalsFile = true
+	} else if run%3 == 0 {
+		gc.GlobalsSplit = true
 	}
 	return gc, r.Intn(3)
 }
